@@ -240,7 +240,7 @@ Proof.
   - rewrite S3, S2, S1. xor_solve.
 Qed.
 
-Theorem hash_ok_make b m : RepW b -> applicable b m = true -> hash_ok b -> hash_ok (fst (make z b m)).
+Theorem hash_ok_make l b m : RepW b -> applicable b m = true -> hash_ok b -> hash_ok (fst (make_l l z b m)).
 Proof.
   intros [HR He Hc Hh Hf] HA HO. rewrite make_eq. cbn [fst]. unfold hash_ok in *.
   change (cur_hash (mk_board z b m)) with (mk_hash z b m).
@@ -264,12 +264,12 @@ Qed.
 Lemma phash_ext b b' : sq2p b = sq2p b' -> cols b = cols b' -> phash z b = phash z b'.
 Proof. intros A B. unfold phash, pterm, piece_at, colors. rewrite A, B. reflexivity. Qed.
 
-Theorem hash_ok_make_null b : RepW b -> hash_ok b -> hash_ok (fst (make_null z b)).
+Theorem hash_ok_make_null l b : RepW b -> hash_ok b -> hash_ok (fst (make_null_l l z b)).
 Proof.
   intros [HR He Hc Hh Hf] HO. unfold hash_ok in *.
   pose proof (rp_cols64 _ HR) as W.
   rewrite (calc_hash_terms z b) in HO by exact W.
-  unfold make_null. cbv zeta.
+  unfold make_null_l. cbv zeta.
   destruct (N.eqb_spec (ep b) 0) as [E|E]; cbn [negb fst]; unfold cur_hash at 1;
     cbn [hashes set_hashes hd]; rewrite calc_hash_terms by exact W;
     cbn [stm castles ep set_hashes set_stm set_ep]; rewrite stm_term_flip; rewrite HO.
@@ -283,17 +283,19 @@ End HashOk.
 (* sequences, reset, transpositions *)
 
 Section C04.
+Variable l : tok_layout.
 Variable z : zobrist.
+Hypothesis HL : layout_ok l = true.
 
-Lemma hash_ok_step b o : RepW b -> op_applicable b o = true -> hash_ok z b -> hash_ok z (fst (step z b o)).
+Lemma hash_ok_step b o : RepW b -> op_applicable b o = true -> hash_ok z b -> hash_ok z (fst (step l z b o)).
 Proof.
   intros HR HA HO. destruct o as [m|]; cbn [step op_applicable] in *.
   - apply hash_ok_make; assumption.
   - apply hash_ok_make_null; assumption.
 Qed.
 
-Theorem run_hash_ok ops : forall b, RepW b -> hash_ok z b -> applicable_all z b ops ->
-  RepW (run z b ops) /\ hash_ok z (run z b ops).
+Theorem run_hash_ok ops : forall b, RepW b -> hash_ok z b -> applicable_all l z b ops ->
+  RepW (run l z b ops) /\ hash_ok z (run l z b ops).
 Proof.
   induction ops as [|o rest IH]; intros b HR HO HA; cbn [run]; [split; assumption|].
   destruct HA as [HA1 HA2]. apply IH; [apply step_RepW|apply hash_ok_step|]; assumption.
@@ -307,9 +309,9 @@ Proof.
   intros [[L P0 W1 W2 S] He Hc Hh Hf]. constructor; [constructor|..]; try assumption. discriminate.
 Qed.
 
-Lemma xsum_w64 f l : (forall s, f s < two64) -> xsum f l < two64.
+Lemma xsum_w64 f sl : (forall s, f s < two64) -> xsum f sl < two64.
 Proof.
-  intros H. induction l as [|a t IH]; [reflexivity|]. rewrite xsum_cons. apply bxor_w64; [apply H|exact IH].
+  intros H. induction sl as [|a t IH]; [reflexivity|]. rewrite xsum_cons. apply bxor_w64; [apply H|exact IH].
 Qed.
 
 Lemma calc_hash_w64 b : zob_w64 z -> w64l (cols b) -> calc_hash z b < two64.
@@ -343,8 +345,8 @@ Proof.
 Qed.
 
 Theorem transposition ops1 ops2 b0 : RepW b0 -> hash_ok z b0 ->
-  applicable_all z b0 ops1 -> applicable_all z b0 ops2 ->
-  hkey (run z b0 ops1) = hkey (run z b0 ops2) -> cur_hash (run z b0 ops1) = cur_hash (run z b0 ops2).
+  applicable_all l z b0 ops1 -> applicable_all l z b0 ops2 ->
+  hkey (run l z b0 ops1) = hkey (run l z b0 ops2) -> cur_hash (run l z b0 ops1) = cur_hash (run l z b0 ops2).
 Proof.
   intros HR HO A1 A2 K.
   destruct (run_hash_ok ops1 b0 HR HO A1) as (_ & H1). destruct (run_hash_ok ops2 b0 HR HO A2) as (_ & H2).
@@ -354,21 +356,21 @@ Qed.
 (* the depth-first walk with undos: the hash is right at every point *)
 Inductive stack_okh : board -> list (op * N) -> Prop :=
 | soh_nil b : stack_okh b []
-| soh_cons b o r st bp : RepW bp -> hash_ok z bp -> op_applicable bp o = true -> step z bp o = (b, r) ->
+| soh_cons b o r st bp : RepW bp -> hash_ok z bp -> op_applicable bp o = true -> step l z bp o = (b, r) ->
     stack_okh bp st -> stack_okh b ((o, r) :: st).
 
-Theorem walk_hash_ok evs : forall b st, RepW b -> hash_ok z b -> stack_okh b st -> walk_ok z b st evs ->
-  RepW (fst (walk z b st evs)) /\ hash_ok z (fst (walk z b st evs)).
+Theorem walk_hash_ok evs : forall b st, RepW b -> hash_ok z b -> stack_okh b st -> walk_ok l z b st evs ->
+  RepW (fst (walk l z b st evs)) /\ hash_ok z (fst (walk l z b st evs)).
 Proof.
   induction evs as [|e rest IH]; intros b st HR HO HS HW; cbn [walk]; [split; assumption|].
   destruct e as [o|]; cbn [walk_ok] in HW.
-  - destruct HW as [HA HW]. pose proof (step_RepW z b o HR HA) as R. pose proof (hash_ok_step b o HR HA HO) as O.
-    destruct (step z b o) as [b' r] eqn:E. cbn [fst] in R, O. apply IH; try assumption.
+  - destruct HW as [HA HW]. pose proof (step_RepW l z b o HR HA) as R. pose proof (hash_ok_step b o HR HA HO) as O.
+    destruct (step l z b o) as [b' r] eqn:E. cbn [fst] in R, O. apply IH; try assumption.
     exact (soh_cons b' o r st b HR HO HA E HS).
   - destruct st as [|[o r] st'].
     + apply IH; assumption.
     + inversion HS as [|? ? ? ? bp HRp HOp HAp Ep Sp]; subst.
-      pose proof (unstep_step z bp o HRp HAp) as U. rewrite Ep in U. cbn [fst snd] in U.
+      pose proof (unstep_step l z HL bp o HRp HAp) as U. rewrite Ep in U. cbn [fst snd] in U.
       rewrite U in *. apply IH; assumption.
 Qed.
 End C04.
